@@ -204,6 +204,8 @@ static void congestionCase(Rng &rng, CaseResult &r) {
       b = c.cellY_[cell] + (int)rng.range(0, std::max(0, pH(c, cell))) - (rng.chance(0.5) ? (int)rng.range(0, std::max(1, pH(c, cell))) : 0);
     }
     Rectangle reg(a, a + (int)rng.range(1, std::max(2, area.width())), b, b + (int)rng.range(1, std::max(2, area.height())));
+    // a congested track or bin edge given as a line (no width or no height): it still crosses the interior of cells
+    if (rng.chance(0.1)) { if (rng.chance(0.5)) reg.maxX = reg.minX; else reg.maxY = reg.minY; }
     float cong = rng.chance(0.3) ? (float)rng.unif(0.0, 1.0) : (rng.chance(0.1) ? 1.0f : (float)rng.unif(1.0, 3.0));
     map.emplace_back(reg, cong);
   }
